@@ -11,7 +11,8 @@ from translate import c02_hstring, c02_tables
 
 MANIFEST = dict(
     technique='Rocq proof generic over the escape tables (induction over the string; tables AND the shape of escape_text regenerated '
-              'from tokenizer.py, side conditions kernel-checked) + exhaustive code-point / small-scope correspondence + in-kernel '
+              'from tokenizer.py, side conditions kernel-checked; the loop of _handle_string read from the source as a decision table by '
+              'abstract execution, proved equal to the hand model when its rows are the model\'s) + exhaustive code-point / small-scope correspondence + in-kernel '
               'small-scope enumeration of the model of the code + oracle search',
     text='Theorems in Props/C02.v, for every string (list of code points), both multiline modes, every option vector with '
          'allow_escapes, any starting line and any text following the closing quote: tokenizing DQ+escape(s)+DQ yields exactly '
@@ -21,15 +22,21 @@ MANIFEST = dict(
          '(regex substitution with the table callback, str.replace, each conditional on multiline); if the steps of a mode are '
          'exactly one substitution (obligation escape_text_is_one_table_substitution_*) the pipeline IS the per-character model '
          '(c02_escape_text_is_charwise) and the inverse law holds for the function as written (c02_escape_text_tokenize_inverse); a '
-         'post-processing pipeline is refuted by a computed witness. The theorems are generic over the tables; the conditions '
+         'post-processing pipeline is refuted by a computed witness. Tokenizer._handle_string is executed on abstract values for every '
+         'combination its loop body can distinguish (class of the character x last_was_cr x allow_escapes x class of the character after '
+         'a backslash: 32 rows); a table of such rows has a meaning as a reader program (hs_interp), and if the rows are the model\'s '
+         '(obligation handle_string_rows_are_the_model) that program IS the hand model handle_string on every input, flat or chunked '
+         '(c02_handle_string_table_is_model*), so the inverse law holds for both functions as written (c02_inverse_as_written). '
+         'The theorems are generic over the tables; the conditions '
          '(every escape decodes back, no symbol is a line feed, DQ/CR/backslash always escaped, LF escaped in single-line mode, '
          'DQ is not an operator) are discharged by vm_compute for the tables regenerated from the source on every run. '
          'The model of the code (pipeline + tokenizer model) is enumerated inside Coq on all strings over the 14-character escape '
          'alphabet up to length 3 (any counterexample is replayed on the implementation); escape_text is compared with the model on '
          'every code point 0..0x10FFFF in both modes and on all strings over that alphabet up to length 4; the string-reading '
          'loop of the model is compared with the real Tokenizer on every text DQ+w, w up to length 4, with and without escapes.',
-    note='Trusted: Coq kernel + vm_compute (incl. primitive Uint63 for checksums), translate/c02_tables.py, the hand model '
-         'Text/Tokenizer.v of _handle_string/_get_token (tied by exhaustive small-scope differential runs), CPython re/str '
+    note='Trusted: Coq kernel + vm_compute (incl. primitive Uint63 for checksums), translate/c02_tables.py, translate/c02_hstring.py (the '
+         'abstract executor of the _handle_string loop body: fail-closed on anything outside its statement language), the hand model '
+         'Text/Tokenizer.v of _get_token (tied by exhaustive small-scope differential runs; _handle_string additionally by the table), CPython re/str '
          '(a regex that is an alternation of single characters substitutes per character; str.replace is leftmost non-overlapping). '
          'The Cython twins (_tokenizer.pyx) cannot be built here and are not covered. Embedding in VMF/BSP/DMX files is '
          'covered only through the compositional theorem (any rest of input) and Tokenizer/Keyvalues.parse-level search.',
@@ -480,7 +487,8 @@ def run(ck: Ck) -> None:
                'astral) of length 1..200 embedded in ten token contexts, cut into chunks at a random position, under other '
                'option vectors, through Keyvalues.parse, non-trivial = contains a character of the escape alphabet; distinct by '
                'full input')
-    ck.trusted.append('hand-written model Text/Tokenizer.v (handle_string/get_token) and Text/Escape.v (tied by exhaustive small-scope and per-code-point differential runs on every run)')
+    ck.trusted.append('hand-written model Text/Tokenizer.v (handle_string/get_token) and Text/Escape.v (tied by exhaustive small-scope and per-code-point differential runs on every run; handle_string also by the decision table read from the source)')
+    ck.trusted.append('translate/c02_hstring.py: abstract execution of the loop body of Tokenizer._handle_string (fail-closed outside its statement language)')
     ck.trusted.append('harness/c02_util.py checksum mirror of Text/TokEnum.v (63-bit; a collision would hide a disagreement)')
     ck.assumptions.append('Python str = list of code points; re.sub over an alternation of single characters acts per character (exercised by the string correspondence)')
     ck.assumptions.append('pure-Python tokenizer only; the Cython twin _tokenizer.pyx cannot be built in this sandbox')
@@ -492,7 +500,7 @@ def run(ck: Ck) -> None:
         ck.notes.append('hand-modelled tokenizer functions changed since the model was written: correspondence budgets escalated')
     built = ok_t and ck.build(['Props/C02.vo', 'Text/TokEnum.vo', 'Text/HsGen.vo'])
     if built:
-        ck.theorems('Props/C02.v')
+        th = U.theorems_in_background(ck, 'Props/C02.v')
         ck.instance_obligations(U.IMPORTS, {
             'every_escape_decodes_back_and_no_symbol_is_LF': 'tbl_roundtrip gen_tables',
             'dquote_always_escaped_single': 'tbl_dq gen_tables false',
@@ -516,6 +524,7 @@ def run(ck: Ck) -> None:
         corr_codepoints(ck)
         corr_escape_strings(ck, escalate)
         corr_quoted(ck, escalate)
+        U.join_theorems(ck, th)
     search(ck, escalate)
     if ck.violations:
         # concrete failing inputs explain broken table obligations / correspondences of the same run
